@@ -365,6 +365,178 @@ theorem refFold_spec (S : List τ) : ∀ (hit : List Nat) (acc : Part τ × List
         rintro ⟨h1, h2⟩
         exact hno ⟨by simp [h1], h2⟩
 
+/-! ### `refine_spec` -/
+
+/-- Block `j` is properly split by `S`: it meets both `S` and its complement. -/
+def Split (p : Part τ) (S : List τ) (j : Nat) : Prop :=
+  j ∈ p.ids ∧ (∃ x ∈ p.get j, x ∈ S) ∧ (∃ y ∈ p.get j, y ∉ S)
+
+/-- The specification of `p.refine S = (r, out)`: every properly split block `A` (id `o`) becomes
+`A \ S` (id `o`) and `A ∩ S` (fresh id `n`), with `(n, o) ∈ out`; nothing else changes. -/
+structure RefineSpec (p : Part τ) (S : List τ) (r : Part τ) (out : List (Nat × Nat)) : Prop where
+  ids_eq : r.ids = p.ids ++ out.map Prod.fst
+  next_eq : r.next = p.next + out.length
+  ids_nodup : r.ids.Nodup
+  ids_lt : ∀ i ∈ r.ids, i < r.next
+  out_spec : ∀ pr ∈ out, p.next ≤ pr.1 ∧ p.Split S pr.2 ∧
+    r.get pr.1 = (p.get pr.2).filter (fun x => decide (x ∈ S))
+  out_complete : ∀ o, p.Split S o → ∃ n, (n, o) ∈ out
+  fst_unique : ∀ pr ∈ out, ∀ pr' ∈ out, pr.2 = pr'.2 → pr.1 = pr'.1
+  get_split : ∀ j, p.Split S j → r.get j = (p.get j).filter (fun x => decide (x ∉ S))
+  get_keep : ∀ j ∈ p.ids, ¬ p.Split S j → r.get j = p.get j
+
+theorem WF.mem_hit_iff {p : Part τ} {U : List τ} (h : p.WF U) (S : List τ) {i : Nat} :
+    i ∈ dedup (S.filterMap p.blockOf) ↔ i ∈ p.ids ∧ ∃ x ∈ p.get i, x ∈ S := by
+  rw [mem_dedup, List.mem_filterMap]
+  constructor
+  · rintro ⟨x, hx, hb⟩
+    obtain ⟨h1, h2⟩ := h.blockOf_iff.mp hb
+    exact ⟨h1, x, h2, hx⟩
+  · rintro ⟨h1, x, h2, hx⟩
+    exact ⟨x, hx, h.blockOf_iff.mpr ⟨h1, h2⟩⟩
+
+theorem refine_spec {p : Part τ} {U : List τ} (h : p.WF U) (S : List τ) :
+    RefineSpec p S (p.refine S).1 (p.refine S).2 := by
+  rw [refine_eq]
+  have hsub : ∀ i ∈ dedup (S.filterMap p.blockOf), i ∈ p.ids := fun i hi => ((h.mem_hit_iff S).mp hi).1
+  obtain ⟨new, h2, hr⟩ := refFold_spec S (dedup (S.filterMap p.blockOf)) (p, []) (nodup_dedup _) hsub
+    h.ids_nodup h.ids_lt
+  simp only [List.nil_append] at h2
+  rw [h2]
+  generalize (List.foldl (refStep S) (p, []) (dedup (S.filterMap p.blockOf))).1 = r at hr
+  simp only at hr
+  have hsplit : ∀ j, p.Split S j ↔ j ∈ dedup (S.filterMap p.blockOf) ∧ NotAll S (p.get j) := by
+    intro j
+    rw [h.mem_hit_iff S]
+    unfold Split NotAll
+    constructor
+    · rintro ⟨a, b, c⟩; exact ⟨⟨a, b⟩, c⟩
+    · rintro ⟨⟨a, b⟩, c⟩; exact ⟨a, b, c⟩
+  constructor
+  · exact hr.ids_eq
+  · exact hr.next_eq
+  · exact hr.ids_nodup
+  · exact hr.ids_lt
+  · intro pr hpr
+    obtain ⟨h1, h2, h3, h4⟩ := hr.new_spec pr hpr
+    exact ⟨h1, (hsplit _).mpr ⟨h2, h3⟩, h4⟩
+  · intro o ho
+    obtain ⟨h1, h2⟩ := (hsplit o).mp ho
+    exact hr.new_complete o h1 h2
+  · exact hr.fst_unique
+  · intro j hj
+    obtain ⟨h1, h2⟩ := (hsplit j).mp hj
+    exact hr.get_split j hj.1 h1 h2
+  · intro j hj hno
+    exact hr.get_keep j hj (fun hh => hno ((hsplit j).mpr hh))
+
+/-- Membership in a block of the refined partition. -/
+theorem RefineSpec.mem_get_old {p r : Part τ} {S : List τ} {out : List (Nat × Nat)}
+    (hs : RefineSpec p S r out) {j : Nat} (hj : j ∈ p.ids) {x : τ} :
+    x ∈ r.get j ↔ x ∈ p.get j ∧ (p.Split S j → x ∉ S) := by
+  by_cases hsp : p.Split S j
+  · rw [hs.get_split j hsp]; simp [hsp]
+  · rw [hs.get_keep j hj hsp]; simp [hsp]
+
+theorem RefineSpec.mem_get_new {p r : Part τ} {S : List τ} {out : List (Nat × Nat)}
+    (hs : RefineSpec p S r out) {pr : Nat × Nat} (hpr : pr ∈ out) {x : τ} :
+    x ∈ r.get pr.1 ↔ x ∈ p.get pr.2 ∧ x ∈ S := by
+  rw [(hs.out_spec pr hpr).2.2]; simp
+
+theorem RefineSpec.mem_ids {p r : Part τ} {S : List τ} {out : List (Nat × Nat)}
+    (hs : RefineSpec p S r out) {i : Nat} :
+    i ∈ r.ids ↔ i ∈ p.ids ∨ ∃ pr ∈ out, pr.1 = i := by
+  rw [hs.ids_eq, List.mem_append, List.mem_map]
+
+theorem RefineSpec.wf {p r : Part τ} {S U : List τ} {out : List (Nat × Nat)}
+    (h : p.WF U) (hs : RefineSpec p S r out) : r.WF U where
+  ids_nodup := hs.ids_nodup
+  ids_lt := hs.ids_lt
+  nonempty := by
+    intro i hi
+    rcases hs.mem_ids.mp hi with hi | ⟨pr, hpr, rfl⟩
+    · by_cases hsp : p.Split S i
+      · obtain ⟨y, hy, hyS⟩ := hsp.2.2
+        have : y ∈ r.get i := (hs.mem_get_old hi).mpr ⟨hy, fun _ => hyS⟩
+        exact List.ne_nil_of_mem this
+      · rw [hs.get_keep i hi hsp]; exact h.nonempty i hi
+    · obtain ⟨x, hx, hxS⟩ := (hs.out_spec pr hpr).2.1.2.1
+      exact List.ne_nil_of_mem ((hs.mem_get_new hpr).mpr ⟨hx, hxS⟩)
+  block_nodup := by
+    intro i hi
+    rcases hs.mem_ids.mp hi with hi | ⟨pr, hpr, rfl⟩
+    · by_cases hsp : p.Split S i
+      · rw [hs.get_split i hsp]; exact (h.block_nodup i hi).filter _
+      · rw [hs.get_keep i hi hsp]; exact h.block_nodup i hi
+    · rw [(hs.out_spec pr hpr).2.2]
+      exact (h.block_nodup _ (hs.out_spec pr hpr).2.1.1).filter _
+  cover := by
+    intro x
+    rw [h.cover]
+    constructor
+    · rintro ⟨i, hi, hx⟩
+      by_cases hxS : x ∈ S ∧ p.Split S i
+      · obtain ⟨n, hn⟩ := hs.out_complete i hxS.2
+        exact ⟨n, hs.mem_ids.mpr (Or.inr ⟨_, hn, rfl⟩), (hs.mem_get_new hn).mpr ⟨hx, hxS.1⟩⟩
+      · exact ⟨i, hs.mem_ids.mpr (Or.inl hi), (hs.mem_get_old hi).mpr ⟨hx, fun hsp hS => hxS ⟨hS, hsp⟩⟩⟩
+    · rintro ⟨i, hi, hx⟩
+      rcases hs.mem_ids.mp hi with hi | ⟨pr, hpr, rfl⟩
+      · exact ⟨i, hi, ((hs.mem_get_old hi).mp hx).1⟩
+      · exact ⟨pr.2, (hs.out_spec pr hpr).2.1.1, ((hs.mem_get_new hpr).mp hx).1⟩
+  disjoint := by
+    intro i hi j hj x hxi hxj
+    rcases hs.mem_ids.mp hi with hi | ⟨pr, hpr, rfl⟩ <;>
+      rcases hs.mem_ids.mp hj with hj | ⟨pr', hpr', rfl⟩
+    · exact h.disjoint i hi j hj x ((hs.mem_get_old hi).mp hxi).1 ((hs.mem_get_old hj).mp hxj).1
+    · obtain ⟨h1, h2⟩ := (hs.mem_get_old hi).mp hxi
+      obtain ⟨h3, h4⟩ := (hs.mem_get_new hpr').mp hxj
+      have hsp := (hs.out_spec pr' hpr').2.1
+      have e : i = pr'.2 := h.disjoint i hi _ hsp.1 x h1 h3
+      subst e
+      exact absurd h4 (h2 hsp)
+    · obtain ⟨h1, h2⟩ := (hs.mem_get_old hj).mp hxj
+      obtain ⟨h3, h4⟩ := (hs.mem_get_new hpr).mp hxi
+      have hsp := (hs.out_spec pr hpr).2.1
+      have e : j = pr.2 := h.disjoint j hj _ hsp.1 x h1 h3
+      subst e
+      exact absurd h4 (h2 hsp)
+    · obtain ⟨h1, _⟩ := (hs.mem_get_new hpr).mp hxi
+      obtain ⟨h3, _⟩ := (hs.mem_get_new hpr').mp hxj
+      have e := h.disjoint _ (hs.out_spec pr hpr).2.1.1 _ (hs.out_spec pr' hpr').2.1.1 x h1 h3
+      exact hs.fst_unique pr hpr pr' hpr' e
+
+theorem RefineSpec.same_iff {p r : Part τ} {S U : List τ} {out : List (Nat × Nat)}
+    (h : p.WF U) (hs : RefineSpec p S r out) {x y : τ} :
+    r.Same x y ↔ p.Same x y ∧ (x ∈ S ↔ y ∈ S) := by
+  rw [Part.same_iff hs.ids_nodup, Part.same_iff h.ids_nodup]
+  constructor
+  · rintro ⟨i, hi, hx, hy⟩
+    rcases hs.mem_ids.mp hi with hi | ⟨pr, hpr, rfl⟩
+    · obtain ⟨h1, h2⟩ := (hs.mem_get_old hi).mp hx
+      obtain ⟨h3, h4⟩ := (hs.mem_get_old hi).mp hy
+      refine ⟨⟨i, hi, h1, h3⟩, ?_⟩
+      by_cases hsp : p.Split S i
+      · simp [h2 hsp, h4 hsp]
+      · have hall : ∀ z ∈ p.get i, (z ∈ S ↔ x ∈ S) := by
+          intro z hz
+          constructor
+          · intro hzS
+            exact Classical.byContradiction fun hxS => hsp ⟨hi, ⟨z, hz, hzS⟩, ⟨x, h1, hxS⟩⟩
+          · intro hxS
+            exact Classical.byContradiction fun hzS => hsp ⟨hi, ⟨x, h1, hxS⟩, ⟨z, hz, hzS⟩⟩
+        exact (hall y h3).symm
+    · obtain ⟨h1, h2⟩ := (hs.mem_get_new hpr).mp hx
+      obtain ⟨h3, h4⟩ := (hs.mem_get_new hpr).mp hy
+      exact ⟨⟨pr.2, (hs.out_spec pr hpr).2.1.1, h1, h3⟩, by simp [h2, h4]⟩
+  · rintro ⟨⟨i, hi, hx, hy⟩, hxy⟩
+    by_cases hxS : x ∈ S ∧ p.Split S i
+    · obtain ⟨n, hn⟩ := hs.out_complete i hxS.2
+      exact ⟨n, hs.mem_ids.mpr (Or.inr ⟨_, hn, rfl⟩), (hs.mem_get_new hn).mpr ⟨hx, hxS.1⟩,
+        (hs.mem_get_new hn).mpr ⟨hy, hxy.mp hxS.1⟩⟩
+    · exact ⟨i, hs.mem_ids.mpr (Or.inl hi),
+        (hs.mem_get_old hi).mpr ⟨hx, fun hsp hS => hxS ⟨hS, hsp⟩⟩,
+        (hs.mem_get_old hi).mpr ⟨hy, fun hsp hS => hxS ⟨hxy.mpr hS, hsp⟩⟩⟩
+
 end Part
 end DFA
 end AV
